@@ -545,8 +545,9 @@ class Spectrum(numpy.ma.masked_array):
         # Create new spectrum
         new_data = np.zeros(shape=[n+1 for n in new_ns])
         new_fs = Spectrum(new_data, pop_ids=new_pop_ids)
-        # Copy over extrapolation info
+        # Copy over extrapolation info and folding status
         new_fs.extrap_x = self.extrap_x
+        new_fs.folded = self.folded
 
         # Fill new spectrum
         for index in np.ndindex(self.shape):
